@@ -24,24 +24,32 @@ from tools.gen import pygen
 LEVEL = "proof"
 MANIFEST = dict(
     category="proof",
-    text="Lean 4 theorems on a model of the generated Python wrapper: for all parameter lists with trailing defaults and "
+    text="Lean 4 theorems on (1) a model of the generated Python wrapper: for all parameter lists with trailing defaults and "
          "all positional/keyword splits accepted by the keyword parser, if the supplied parameters are the first "
          "(#positional+#keyword) ones the library receives exactly the supplied values and its own defaults for the rest "
          "(partial: the full statement is refuted by the keyword-skipping witness f(i=1,k=3); it is proved in full for functions "
          "with at most one defaulted parameter, and for functions with a default-argument switch the prefix condition is "
-         "proved necessary as well as sufficient); no wrapper or overload "
-         "dispatcher ever ends in SystemError, wrongly typed / surplus / unknown-keyword calls end in TypeError, a call "
-         "matching no overload ends in TypeError; the returned object is None / the single item / a tuple with the result "
-         "first and the intent(out|inout) parameters in declaration order. The model is tied to wrapp.py on every run: "
-         "emitted format string, keyword list, case call lists, dispatch windows, PyDict_Size operand and return order are "
-         "extracted from the generated C and compared with the model; compiled extensions are driven with every split and "
-         "compared with the model and with an implementation-only oracle.",
+         "proved necessary as well as sufficient); no wrapper or overload dispatcher ever ends in SystemError, wrongly typed / "
+         "surplus / unknown-keyword calls end in TypeError, a call matching no overload ends in TypeError; the returned object "
+         "is None / the single item / a tuple with the result first and the intent(out|inout) parameters in declaration order; "
+         "(2) tables regenerated from the working tree on every run (every py_statements entry for C and C++, every typemap's "
+         "PY_* fields): one address per parse unit, goto-fail/fail-label consistency, every acquired resource released on the "
+         "success and failure paths or handed to the returned object, build-unit arity = build arguments, PY_ctor arity; "
+         "(3) a model of the list-mode conversion helpers: every item converted in order, the first rejected item gives "
+         "TypeError with its index and leaves nothing allocated. Ties on every run: emitted format string, keyword list, case "
+         "call lists, dispatch windows, PyDict_Size operand, return order and Py_BuildValue format/argument count are extracted "
+         "from the generated C and compared with the model; compiled extensions are driven with every split and compared with "
+         "the model and an implementation-only oracle; the helper C text is compiled with counting allocators and compared "
+         "with the helper model.",
     design="3 C03",
-    note="Trusted: Lean kernel; the abstraction of CPython's vgetargskeywords and of per-unit converters (accepted value "
-         "classes per format unit are harness data); g++/CPython 3.12 for the compiled oracle. Not modelled: reference "
-         "counting, list/vector/struct conversion helpers, numpy, py_implied expressions (an implied argument is an "
-         "opaque value), values outside the C type's range (OverflowError).",
-    technique="Lean 4 proof by induction over the parameter list + differential correspondence on emitted text and on compiled extensions",
+    note="Trusted: Lean kernel; the abstraction of CPython's vgetargskeywords; the translator's pattern table (66 line patterns: "
+         "which template lines acquire / release / hand on a resource), its C-API arity table and the value classes per format "
+         "unit; g++/gcc and CPython 3.12 for the compiled oracles. Not modelled: reference counting inside CPython, numpy "
+         "conversions, getter/setter clauses of struct members, the generated struct-as-class constructor, py_implied "
+         "expressions (an implied argument is an opaque value), values outside the C type's range (OverflowError); conversion "
+         "failures of list arguments are predicted by composing the dispatch model with the helper model in the harness.",
+    technique="Lean 4 proof by induction over parameter / item lists + decide +kernel over regenerated tables + differential "
+              "correspondence on emitted text, compiled extensions and compiled helpers",
 )
 MODULES = ["ShroudVerif.Props.C03", "ShroudVerif.Props.C03Tables", "ShroudVerif.Props.C03Lists"]
 THEOREMS = {
@@ -426,6 +434,8 @@ def tie_emitted(ctx, drv, lib, calls, texts, dis, info):
         for node in functions:
             if not node.wrap.python or node.ast.is_dtor():
                 continue
+            if node._generated == "struct_as_class_ctor":
+                continue        # the generated struct constructor (all fields optional) is not modelled
             params = node_params(node, intern, clsids)
             key = (cname, "__init__" if node.ast.is_ctor() else node.ast.name)
             info.setdefault(key, []).append((node, params))
@@ -535,6 +545,7 @@ sys.path.insert(0, d)
 M = __import__(modname)
 L = ctypes.CDLL(M.__file__)
 L.subj_trace.restype = ctypes.c_char_p
+L.hd_outstanding.restype = ctypes.c_long
 def dec(e):
     if e[0] == "cls": return getattr(M, e[1])(e[2])
     if e[0] == "pt": return M.Pt(e[1], e[2])
@@ -573,6 +584,7 @@ for c in calls:
         out.flush()
         continue
     L.subj_reset()
+    out0 = L.hd_outstanding()
     try:
         r = fn(*pos) if kw is None else fn(*pos, **kw)
         trace = L.subj_trace().decode("latin-1")
@@ -581,20 +593,52 @@ for c in calls:
         trace = L.subj_trace().decode("latin-1")
         res = {"i": i, "r": "exc", "type": type(e).__name__, "msg": str(e)[:200]}
     res["trace"] = trace
+    res["leak"] = L.hd_outstanding() - out0
     out.write(json.dumps(res) + "\n"); out.flush()
 '''
 
 
+COUNTER_SRC = """\
+#include "hd_alloc.h"
+#ifdef __cplusplus
+extern "C" {
+#endif
+static long hd_count = 0;
+void *hd_malloc(size_t n) { hd_count++; return malloc(n ? n : 1); }
+void *hd_calloc(size_t a, size_t b) { hd_count++; return calloc(a ? a : 1, b ? b : 1); }
+char *hd_strdup(const char *s) { hd_count++; return strdup(s); }
+void hd_free(void *p) { if (p) hd_count--; free(p); }
+long hd_outstanding(void) { return hd_count; }
+#ifdef __cplusplus
+}
+#endif
+"""
+
+
 def compile_ext(lib, d, out):
+    """the generated sources are compiled with counting malloc/calloc/strdup/free (hd_alloc.h), so that the
+    driver can see an allocation the wrapper made for a call and did not release"""
     inc = sysconfig.get_paths()["include"]
     cxx = lib.language != "c"
-    srcs = [os.path.join(out, f) for f in sorted(os.listdir(out)) if f.endswith((".c", ".cpp"))]
-    srcs.append(os.path.join(d, "subject." + ("cpp" if cxx else "c")))
+    ext = ".cpp" if cxx else ".c"
+    open(os.path.join(d, "hd_alloc.h"), "w").write(c03_helpers.ALLOC_H)
+    open(os.path.join(d, "hd_count" + ext), "w").write(COUNTER_SRC)
+    gen = [os.path.join(out, f) for f in sorted(os.listdir(out)) if f.endswith((".c", ".cpp"))]
+    own = [os.path.join(d, "subject" + ext), os.path.join(d, "hd_count" + ext)]
     so = os.path.join(d, lib.name + ".so")
-    cmd = (["g++", "-std=c++11"] if cxx else ["gcc", "-std=c99"]) + ["-shared", "-fPIC", "-O0", "-w", "-I" + inc, "-I" + d, "-I" + out] \
-        + srcs + ["-o", so]
-    p = subprocess.run(cmd, stdout=subprocess.PIPE, stderr=subprocess.STDOUT, text=True, timeout=600)
-    return p.returncode == 0, p.stdout[-3000:]
+    base = (["g++", "-std=c++11"] if cxx else ["gcc", "-std=c99", "-D_POSIX_C_SOURCE=200809L"]) + \
+        ["-fPIC", "-O0", "-w", "-I" + inc, "-I" + d, "-I" + out]
+    log, objs = "", []
+    for i, src in enumerate(gen + own):
+        o = os.path.join(d, "o%d.o" % i)
+        extra = ["-include", "hd_alloc.h"] if src in gen else ["-DHD_NO_REDEFINE"]
+        p = subprocess.run(base + extra + ["-c", src, "-o", o], stdout=subprocess.PIPE, stderr=subprocess.STDOUT, text=True, timeout=600)
+        log += p.stdout
+        if p.returncode:
+            return False, log[-3000:]
+        objs.append(o)
+    p = subprocess.run([base[0], "-shared"] + objs + ["-o", so], stdout=subprocess.PIPE, stderr=subprocess.STDOUT, text=True, timeout=600)
+    return p.returncode == 0, (log + p.stdout)[-3000:]
 
 
 def drive(d, lib, calls):
@@ -1029,6 +1073,8 @@ def check_library(ctx, drv, lib, thorough, r, dis_gen, dis_call, extra_calls=())
                 if S is not None:
                     E = f
                     break
+            if res.get("leak"):
+                ctx.fail("leak:%s:%s" % (lib.name, sig), "%s: the wrapper left %d allocation(s) behind" % (sig, res["leak"]), replay)
             if E is not None and any(p.kind == "clsptr" for p in E.params):
                 # a non-const class pointer: whatever goes wrong here is one finding (the raw C++ pointer is
                 # handed to Py_BuildValue("O"); the symptom - crash, garbage object - depends on heap contents)
@@ -1228,8 +1274,8 @@ def run(ctx):
         "argument values are inside the range of their C type (out-of-range integers raise OverflowError in CPython)",
         "first-match semantics for overloads: the first declared overload that accepts the call is the expected one",
     ]
-    if not drv.available() or not ok:
-        ctx.tie_broken("pydispatch-driver", "driver or proofs not built")
+    if not drv.available():
+        ctx.tie_broken("pydispatch-driver", "driver not built")
     libs = [pygen.fixed_cxx("fixlib"), pygen.grid_cxx(r, "gridlib")]
     if thorough:
         libs += [pygen.grid_cxx(r, "grid%d" % i) for i in range(3)]
